@@ -17,6 +17,10 @@ def run(tier, only=None):
         for field in range(11):
             conds.append(Cond("harness.h_c18", "h_one_field", t, part=field * 100 + sh, ladder=ladder))
             conds.append(Cond("harness.h_c18", "h_copy_then_edit", t, part=field * 100 + sh, ladder=ladder))
+    for field in (1, 2, 3, 5, 8):
+        for a in (1, 2):
+            conds.append(Cond("harness.h_c18", "h_one_field", t, part=field * 100 + 2, ladder=ladder[-1:], affix=a,
+                              label="h_one_field[field %d, long text variant %d]" % (field, a)))
     if only:
         conds = [c for c in conds if only in c.label]
     rep.bounds = {"shapes": shapes, "string_length": "<= %d (ladder %r)" % (ladder[0], ladder),
